@@ -113,6 +113,19 @@ CLAIMED["C04"] = dict(
          "text (cyclic type in the checker -> stack overflow; builtin name as last statement; -{}; | | self; non-ASCII spans).",
     technique="TLC-enumerated token sequences; trace validation of call/return events against a TLA+ contract",
 )
+CLAIMED["C20"] = dict(
+    category="model_checking",
+    text="Ffi.tla defines the universe of macro-stage values (symbolic numbers incl. -0, denormal, infinities, NaN with payload; "
+         "strings incl. empty, non-ASCII and embedded NUL; arrays/tuples/records of width 0-2, tagged unions, code, and the "
+         "kinds that cannot cross) and of types (every variant) up to a depth bound, and the contract of a lossless channel that "
+         "may refuse only what cannot cross; TLC enumerates it exhaustively. Every item goes through the real encoders "
+         "(macro result path, macro argument path, the serde implementations of Value and Type) and FfiTrace.tla validates the "
+         "recorded outcomes: accepted => decodes to itself; representable => accepted.",
+    design_ref="DESIGN.md §6 C20",
+    note="Thin specification (a contract plus a bounded universe), as stated in DESIGN.md. Nested TypeNodeId / ExprNodeId travel as "
+         "interner keys (shared interner); numbers are compared by bit pattern.",
+    technique="TLC-enumerated value/type universe; round trips through the real encoders validated against a TLA+ channel contract",
+)
 NOT_YET = {}
 
 checks = []
